@@ -46,12 +46,18 @@ func genC20all(seed, index uint64, tier string) *Plan {
 	if index%4 == 3 {
 		return genC20b(NewGen(seed, index, 120), seed, index)
 	}
+	if index%16 == 6 {
+		return genC20c(NewGen(seed, index, 220), seed, index)
+	}
 	return genC20(seed, index, tier)
 }
 
 func execC20(t *testing.T, p *Plan) *RunResult {
 	if p.Net != nil {
 		return ExecuteC20b(t, p)
+	}
+	if p.Render != nil {
+		return ExecuteC20c(t, p)
 	}
 	r, _ := Execute(t, p, oracleC20, nil, false)
 	return r
